@@ -252,7 +252,7 @@ def gen_case(rng, table, nops, classes=None):
     return ops
 
 
-def exhaustive_cases(table, limit, rng):
+def exhaustive_cases(table, limit, rng, depth=2):
     """small scope: every program of <= 3 re-linking/copy operations over a fixed pool of three stacked objects of
     mixed classes (a 3-layer chain, a 1-layer chain of the same top class, a Packet), at every reference"""
     out = []
@@ -268,11 +268,14 @@ def exhaustive_cases(table, limit, rng):
                       f"div 3 {a[0]} {a[1]} {b[0]} {b[1]}"]
     atoms += ["del 0", "del 1", "del 2", "del 3", "setinner 0 0 1", "setinner 1 0 0", "setinner 0 2 1", "pkown 3 1",
               "pkcopy 3 2", "pkmove 3 2", "pkrelease 3 2", "pkassign 2 2", "pkmassign 2 2", "pkdiv 2 0 1", "pkdiv 2 1 0"]
-    pairs = list(itertools.product(range(len(atoms)), repeat=2))
-    if limit < len(pairs):
-        pairs = rng.sample(pairs, limit)          # quick tier: a seeded sample of the small scope
-    for n, (i, j) in enumerate(pairs):
-        prog = (atoms[i], atoms[j])
+    if depth == 2:
+        pairs = list(itertools.product(range(len(atoms)), repeat=2))
+        if limit < len(pairs):
+            pairs = rng.sample(pairs, limit)          # quick tier: a seeded sample of the small scope
+    else:
+        pairs = [tuple(rng.randrange(len(atoms)) for _ in range(depth)) for _ in range(limit)]
+    for n, idx in enumerate(pairs):
+        prog = tuple(atoms[i] for i in idx)
         x, y, z = tops[n % len(tops)], tops[(n * 7 + 3) % len(tops)], tops[(n * 13 + 5) % len(tops)]
         pre = [f"init {NSLOTS}", f"new 0 {x[0]} {x[2]} 9", f"new 1 {y[0]} {y[2]} 18", f"new 3 {z[0]} {z[2]} 200",
                "diveq 0 0 1 0", "diveq 0 0 3 0", "del 3", f"new 2 {x[0]} {x[2]} 5", "pkown 3 2", "pkmove 2 3", "del 3"]
@@ -289,6 +292,8 @@ def known_cases(table):
         [f"init {NSLOTS}", f"new 0 {ip} 1 7", f"new 1 {tcp} 1 9", "diveq 0 0 1 0", f"new 2 {eth} 0 5", "assign 0 0 2 0", "end"],
         # KF-C12-2: PDUOption copy-assignment onto itself with a heap payload
         [f"init {NSLOTS}", "onew 0 3 12 65", "oassign 0 0", "onew 1 4 8 1", "oassign 1 1", "omassign 0 0", "end"],
+        # KF-C12-3 (known, design decision): `a = *a.inner_pdu()` — reproduced with the unguarded `assignraw`
+        [f"init {NSLOTS}", f"new 0 {ip} 1 9", f"new 1 {ip} 1 7", "setinner 0 0 1", "assignraw 0 0 0 1", "end"],
     ]
 
 
@@ -336,6 +341,10 @@ def run(chk):
         ops += gen_case(rng, table, rng.choice([6, 10, 16, 30]), classes=focus if i % 5 else None)
     stats = corr.correspond(chk, AREA, exe, ops, case_start=CASE_START, classify=classify, sig_of=sig_of)
     if not quick:
+        ops = []
+        for c in exhaustive_cases(table, 60000, rng, depth=3):      # seeded sample of the 3-operation scope
+            ops += c
+        stats += corr.correspond(chk, AREA, exe, ops, case_start=CASE_START, classify=classify, sig_of=sig_of)
         for _ in range(4):
             ops = []
             for i in range(1500):
